@@ -2,7 +2,10 @@
 //
 // Input  : (tree updates)
 //
-//	tree    := (T crit) | (C crit) | (A tree*)          -- task leaf, call leaf, aggregator; the root is an (A …)
+//	tree    := (T crit [TRIGGER]) | (C crit [TRIGGER]) | (A tree*)
+//	           -- task leaf, call leaf, aggregator; the root is an (A …). A leaf with a third element is a HOOK:
+//	           -- its YAML has `trigger: TRIGGER` (e.g. before_CONFIGURE, after_START_ACTIVITY+10), so the loaded role
+//	           -- has non-empty Traits.Trigger/Await and the 30 s hook timeout. Critical or not is said by `crit` alone.
 //	updates := ((S (i j k) STATE) | (U (i j k) STATUS))*  -- child-index path from the root to a leaf
 //
 // Obs    : (dump0 dump1 … dumpN)  one dump before any update and one after
@@ -80,8 +83,14 @@ func yamlOf(n *sx.Node, name string, indent string, b *strings.Builder, top bool
 	switch kind {
 	case "T":
 		fmt.Fprintf(b, "%stask:\n%s  load: cls\n%s  critical: %v\n", cont, cont, cont, n.At(1).Bool())
+		if n.Len() >= 3 {
+			fmt.Fprintf(b, "%s  trigger: %s\n", cont, n.At(2).Str())
+		}
 	case "C":
 		fmt.Fprintf(b, "%scall:\n%s  func: noop()\n%s  critical: %v\n", cont, cont, cont, n.At(1).Bool())
+		if n.Len() >= 3 {
+			fmt.Fprintf(b, "%s  trigger: %s\n", cont, n.At(2).Str())
+		}
 	case "A":
 		if n.Len() == 1 {
 			fmt.Fprintf(b, "%sroles: []\n", cont)
@@ -102,7 +111,39 @@ func build(tree *sx.Node) (workflow.Role, error) {
 		return nil, fmt.Errorf("yaml: %v\n%s", err, b.String())
 	}
 	workflow.LinkChildrenToParents(root)
+	if err := checkTraits(tree, root); err != nil {
+		return nil, err
+	}
 	return root, nil
+}
+
+// checkTraits makes sure the loaded leaves ARE what the input says (a hook really has a non-empty
+// Trigger, criticality as written): a tree the YAML step built differently is infrastructure trouble.
+func checkTraits(tree *sx.Node, r workflow.Role) error {
+	if tree.At(0).Str() == "A" {
+		kids := r.GetRoles()
+		if len(kids) != tree.Len()-1 {
+			return fmt.Errorf("c11: %d children loaded for %s", len(kids), tree.String())
+		}
+		for i, k := range kids {
+			if err := checkTraits(tree.At(i+1), k); err != nil {
+				return err
+			}
+		}
+		return nil
+	}
+	tt, ok := r.(interface{ GetTaskTraits() task.Traits })
+	if !ok {
+		return fmt.Errorf("c11: leaf %s loaded as %T", tree.String(), r)
+	}
+	want := ""
+	if tree.Len() >= 3 {
+		want = tree.At(2).Str()
+	}
+	if tr := tt.GetTaskTraits(); tr.Trigger != want || tr.Critical != tree.At(1).Bool() || (want != "") != (tr.Await != "") {
+		return fmt.Errorf("c11: leaf %s loaded with traits %+v", tree.String(), tr)
+	}
+	return nil
 }
 
 func dump(root workflow.Role) *sx.Node {
@@ -158,7 +199,16 @@ func runImpl(input string) (string, error) {
 
 type leafPath []int
 
+// triggers a hook can carry in a workflow template (callable.ParseTriggerExpression: name, optional weight)
+var triggerNames = []string{"before_CONFIGURE", "after_CONFIGURE", "before_START_ACTIVITY", "after_START_ACTIVITY+10",
+	"before_STOP_ACTIVITY-5", "enter_RUNNING", "leave_RUNNING", "DEPLOY", "before_DESTROY+100"}
+
+// hookP (0..10) is the probability, per leaf, of making it a hook; one draw per tree in genCase/genConcRandom.
 func genTree(r *rng.R, depth, maxKids int, critP int, paths *[]leafPath, cur leafPath, budget *int) *sx.Node {
+	return genTreeH(r, depth, maxKids, critP, 0, paths, cur, budget)
+}
+
+func genTreeH(r *rng.R, depth, maxKids int, critP, hookP int, paths *[]leafPath, cur leafPath, budget *int) *sx.Node {
 	n := sx.L(sx.A("A"))
 	// no empty aggregators: the loader prunes them (C15), so they never reach aggregation
 	k := r.Range(1, maxKids)
@@ -169,13 +219,17 @@ func genTree(r *rng.R, depth, maxKids int, critP int, paths *[]leafPath, cur lea
 		*budget--
 		p := append(append(leafPath{}, cur...), i)
 		if depth < 3 && r.P(1, 3) {
-			n.Add(genTree(r, depth+1, maxKids, critP, paths, p, budget))
+			n.Add(genTreeH(r, depth+1, maxKids, critP, hookP, paths, p, budget))
 		} else {
 			kind := "T"
 			if r.P(1, 4) {
 				kind = "C"
 			}
-			n.Add(sx.L(sx.A(kind), sx.B(r.P(critP, 10))))
+			leaf := sx.L(sx.A(kind), sx.B(r.P(critP, 10)))
+			if hookP > 0 && r.P(hookP, 10) {
+				leaf.Add(sx.A(rng.Pick(r, triggerNames)))
+			}
+			n.Add(leaf)
 			*paths = append(*paths, p)
 		}
 	}
@@ -194,7 +248,8 @@ func genCase(r *rng.R, maxUpd int) fw.Case {
 	var paths []leafPath
 	budget := r.Range(1, 14)
 	critP := rng.Pick(r, []int{10, 9, 7, 5})
-	tree := genTree(r, 0, r.Range(1, 4), critP, &paths, nil, &budget)
+	hookP := rng.Pick(r, []int{0, 0, 2, 4, 6})
+	tree := genTreeH(r, 0, r.Range(1, 4), critP, hookP, &paths, nil, &budget)
 	ups := sx.L()
 	tags := []string{}
 	if len(paths) > 0 {
@@ -221,7 +276,101 @@ func genCase(r *rng.R, maxUpd int) fw.Case {
 		tags = append(tags, "mixed-critical")
 	}
 	tags = append(tags, fmt.Sprintf("leaves=%d", min(len(paths), 8)), fmt.Sprintf("updates~%d", (ups.Len()+4)/5*5))
+	tags = append(tags, hookTags(tree)...)
 	return fw.Case{Input: sx.L(tree, ups).String(), Tags: tags}
+}
+
+// hookTags: which kinds of hook leaves a tree contains (so the distribution shows in the evidence).
+func hookTags(tree *sx.Node) []string {
+	seen := map[string]bool{}
+	var walk func(n *sx.Node)
+	walk = func(n *sx.Node) {
+		if n.At(0).Str() == "A" {
+			for i := 1; i < n.Len(); i++ {
+				walk(n.At(i))
+			}
+			return
+		}
+		if n.Len() >= 3 {
+			k := "task"
+			if n.At(0).Str() == "C" {
+				k = "call"
+			}
+			c := "noncritical"
+			if n.At(1).Bool() {
+				c = "critical"
+			}
+			seen["hook-"+c+"-"+k] = true
+		}
+	}
+	walk(tree)
+	if len(seen) == 0 {
+		return []string{"no-hooks"}
+	}
+	out := []string{"hooks"}
+	for _, k := range []string{"hook-critical-task", "hook-noncritical-task", "hook-critical-call", "hook-noncritical-call"} {
+		if seen[k] {
+			out = append(out, k)
+		}
+	}
+	return out
+}
+
+// ---- fixed scenarios: a hook next to ordinary children, two updates in both orders ----------------
+//
+// Class of behaviour: the arrival order of updates to DIFFERENT leaves. One leaf H (a task or call role,
+// hook or not, critical or not) sits next to an ordinary critical sibling S below one aggregator (at the
+// root, one level down, or with H/S themselves one level further down, plus a bystander); H receives
+// value vH and S receives vS, once H first and once S first, optionally after everything was brought to a
+// common healthy state and optionally followed by a second healthy update of S. After every single
+// update all roles are compared, so both the merge shortcut (which stores an incoming ERROR/MIXED without
+// folding) and the re-fold triggered by the sibling are seen.
+func hookOrderCases(tier string) []fw.Case {
+	type shape struct {
+		tmpl string // @H and @S are substituted
+		h, s string // paths
+	}
+	shapes := []shape{
+		{"(A @H @S)", "(0)", "(1)"},
+		{"(A @S @H)", "(1)", "(0)"},
+		{"(A (A @H @S) (T 1))", "(0 0)", "(0 1)"},
+		{"(A (T 1) (A @S @H))", "(1 1)", "(1 0)"},
+		{"(A @H (A @S (T 1)))", "(0)", "(1 0)"},
+		{"(A (A @H) @S (C 1))", "(0 0)", "(1)"},
+	}
+	hs := []string{"(T 1 before_CONFIGURE)", "(T 0 before_CONFIGURE)", "(C 1 after_START_ACTIVITY+10)", "(C 0 enter_RUNNING)", "(T 1)", "(T 1 leave_RUNNING-5)"}
+	ss := []string{"(T 1)", "(C 1)", "(T 1 after_CONFIGURE)"}
+	vals := [][2]string{{"ERROR", "CONFIGURED"}, {"ERROR", "RUNNING"}, {"DONE", "CONFIGURED"}, {"CONFIGURED", "ERROR"}, {"MIXED", "RUNNING"}}
+	if tier != "thorough" {
+		shapes = shapes[:5]
+		hs = hs[:5]
+		ss = ss[:2]
+		vals = vals[:4]
+	}
+	var cs []fw.Case
+	for _, sh := range shapes {
+		for _, h := range hs {
+			for _, sib := range ss {
+				tree := strings.Replace(strings.Replace(sh.tmpl, "@H", h, 1), "@S", sib, 1)
+				for _, v := range vals {
+					uh := fmt.Sprintf("(S %s %s)", sh.h, v[0])
+					us := fmt.Sprintf("(S %s %s)", sh.s, v[1])
+					for _, warm := range []string{"", fmt.Sprintf("(S %s STANDBY) (S %s STANDBY) ", sh.h, sh.s)} {
+						for oi, order := range []string{uh + " " + us, us + " " + uh} {
+							tail := ""
+							if v[1] != "ERROR" {
+								tail = fmt.Sprintf(" (S %s %s)", sh.s, "RUNNING")
+							}
+							in := sx.MustParse(fmt.Sprintf("(%s (%s%s%s))", tree, warm, order, tail))
+							tags := append([]string{"hook-order", []string{"hook-order-h-first", "hook-order-sibling-first"}[oi]}, hookTags(in.At(0))...)
+							cs = append(cs, fw.Case{Input: in.String(), Tags: tags})
+						}
+					}
+				}
+			}
+		}
+	}
+	return cs
 }
 
 func generate(tier string, r *rng.R) []fw.Case {
@@ -229,7 +378,9 @@ func generate(tier string, r *rng.R) []fw.Case {
 	if tier == "thorough" {
 		n, maxUpd = 40000, 40
 	}
-	var cs []fw.Case
+	// fixed: hooks next to ordinary children, both arrival orders (shuffled: the framework keeps the first few disagreements only)
+	cs := hookOrderCases(tier)
+	rng.Shuffle(r.Fork(), cs)
 	for i := 0; i < n; i++ {
 		cs = append(cs, genCase(r.Fork(), maxUpd))
 	}
@@ -288,9 +439,14 @@ func init() {
 		Generate:   generate,
 		RunImpl:    runImpl,
 		Nontrivial: nontrivial,
-		Rule: "random role trees (depth<=4, <=14 roles, task/call leaves, critical with p in {1,.9,.7,.5}) built from YAML through the " +
+		Rule: "random role trees (depth<=4, <=14 roles, task/call leaves, critical with p in {1,.9,.7,.5}; per tree a hook probability in " +
+			"{0,0,.2,.4,.6}: a hook leaf is loaded from YAML with a `trigger:` from a list of real trigger expressions, so it has non-empty " +
+			"Traits.Trigger/Await — checked on the loaded role) built from YAML through the " +
 			"package's unmarshallers, 0..20 (thorough 0..40) leaf state/status updates; after every update the state and status of EVERY " +
 			"role is compared with the Lean model; non-trivial = >=2 leaves, (>=2 aggregators or >=3 leaves) and >=3 updates; distinct by input text. " +
+			"FIXED cases (tag hook-order): a leaf H (critical/non-critical task or call hook, or a plain task) next to an ordinary critical sibling S " +
+			"in 5 (thorough 6) tree shapes, H and S each get one value (ERROR/healthy pairs) in BOTH arrival orders, cold or after a common " +
+			"STANDBY, followed by one more healthy update of S. " +
 			"CONCURRENT cases (tag conc): 2..4 goroutines deliver UpdateState to the real roles under a controlled interleaving (held in SendEvent " +
 			"between a role's merge and its parent's, and in GetState of every child a fold reads; lock waits observed in the goroutine dump); the " +
 			"schedule is replayed by the Lean small-step model, outcome of every entry and every role's state/status at quiescence are compared, " +
@@ -434,4 +590,183 @@ func genMergeFacts(repo string) (string, error) {
 
 func init() {
 	fw.RegisterGen(fw.GenFile{Name: "MergeFacts.lean", Make: genMergeFacts})
+	fw.RegisterGen(fw.GenFile{Name: "FoldFacts.lean", Make: genFoldFacts})
+}
+
+// ---- go/ast facts: which children the fold leaves out, which leaves tell their parent -------------------
+//
+// Model/RoleTraits.lean writes `skipped` (the `continue` conditions of aggregateState) and `forwards` (the guard of
+// the parent call at the end of a leaf's updateState/updateStatus) after the code. These facts pin the text of
+// exactly those conditions: every statement of interest is listed with the stack of `if` conditions around it
+// (an else branch contributes "not(<cond>)").
+
+func guardStacks(fset *token.FileSet, body *ast.BlockStmt, want func(ast.Stmt) (string, bool)) [][2]string {
+	str := func(n ast.Node) string { var sb strings.Builder; printer.Fprint(&sb, fset, n); return sb.String() }
+	var out [][2]string
+	var walkStmt func(st ast.Stmt, stack []string)
+	walkBlock := func(b *ast.BlockStmt, stack []string) {
+		if b == nil {
+			return
+		}
+		for _, st := range b.List {
+			walkStmt(st, stack)
+		}
+	}
+	walkStmt = func(st ast.Stmt, stack []string) {
+		if txt, ok := want(st); ok {
+			out = append(out, [2]string{strings.Join(stack, " && "), txt})
+		}
+		switch x := st.(type) {
+		case *ast.IfStmt:
+			cond := str(x.Cond)
+			walkBlock(x.Body, append(append([]string{}, stack...), cond))
+			if x.Else != nil {
+				walkStmt(x.Else, append(append([]string{}, stack...), "not("+cond+")"))
+			}
+		case *ast.BlockStmt:
+			walkBlock(x, stack)
+		case *ast.ForStmt:
+			walkBlock(x.Body, stack)
+		case *ast.RangeStmt:
+			walkBlock(x.Body, stack)
+		case *ast.SwitchStmt:
+			for _, c := range x.Body.List {
+				cc := c.(*ast.CaseClause)
+				g := "case " + str(x.Tag) + ":"
+				for i, e := range cc.List {
+					if i > 0 {
+						g += ","
+					}
+					g += str(e)
+				}
+				for _, s2 := range cc.Body {
+					walkStmt(s2, append(append([]string{}, stack...), g))
+				}
+			}
+		}
+	}
+	walkBlock(body, nil)
+	return out
+}
+
+func genFoldFacts(repo string) (string, error) {
+	fset := token.NewFileSet()
+	str := func(n ast.Node) string { var sb strings.Builder; printer.Fprint(&sb, fset, n); return sb.String() }
+	funcOf := func(file, recv, name string) (*ast.FuncDecl, error) {
+		f, err := parser.ParseFile(fset, filepath.Join(repo, file), nil, 0)
+		if err != nil {
+			return nil, err
+		}
+		for _, d := range f.Decls {
+			fd, ok := d.(*ast.FuncDecl)
+			if !ok || fd.Name.Name != name || fd.Body == nil {
+				continue
+			}
+			r := ""
+			if fd.Recv != nil && len(fd.Recv.List) == 1 {
+				r = str(fd.Recv.List[0].Type)
+			}
+			if r == recv {
+				return fd, nil
+			}
+		}
+		return nil, fmt.Errorf("c11 facts: %s: func (%s) %s not found", file, recv, name)
+	}
+	var b strings.Builder
+	b.WriteString("namespace Gen\n\n")
+	agg, err := funcOf("core/workflow/safestate.go", "", "aggregateState")
+	if err != nil {
+		return "", err
+	}
+	// the type assertions the switch is about
+	b.WriteString("/-- aggregateState: `v, ok := c.(T)` assignments as (v, ok, T). -/\ndef foldAsserts : List (String × String × String) := [")
+	n := 0
+	ast.Inspect(agg.Body, func(nd ast.Node) bool {
+		as, ok := nd.(*ast.AssignStmt)
+		if !ok || len(as.Lhs) != 2 || len(as.Rhs) != 1 {
+			return true
+		}
+		ta, ok := as.Rhs[0].(*ast.TypeAssertExpr)
+		if !ok {
+			return true
+		}
+		if n > 0 {
+			b.WriteString(", ")
+		}
+		n++
+		fmt.Fprintf(&b, "(%q, %q, %q)", str(as.Lhs[0]), str(as.Lhs[1]), str(ta.X)+".("+str(ta.Type)+")")
+		return true
+	})
+	b.WriteString("]\n\n")
+	list := func(name, doc string, rows [][2]string) {
+		fmt.Fprintf(&b, "/-- %s -/\ndef %s : List (String × String) := [", doc, name)
+		for i, r := range rows {
+			if i > 0 {
+				b.WriteString(", ")
+			}
+			fmt.Fprintf(&b, "(%q, %q)", r[0], r[1])
+		}
+		b.WriteString("]\n\n")
+	}
+	list("foldSkips", "aggregateState: every `continue`/`break`/`return`/`goto` of the function as (conditions around it, statement).",
+		guardStacks(fset, agg.Body, func(st ast.Stmt) (string, bool) {
+			switch x := st.(type) {
+			case *ast.BranchStmt:
+				return str(x), true
+			case *ast.ReturnStmt:
+				return "return", true
+			}
+			return "", false
+		}))
+	list("foldCombines", "aggregateState: every assignment to the result as (conditions around it, statement).",
+		guardStacks(fset, agg.Body, func(st ast.Stmt) (string, bool) {
+			if as, ok := st.(*ast.AssignStmt); ok && len(as.Lhs) == 1 && str(as.Lhs[0]) == "s" {
+				return str(as), true
+			}
+			return "", false
+		}))
+	aggU, err := funcOf("core/workflow/safestatus.go", "", "aggregateStatus")
+	if err != nil {
+		return "", err
+	}
+	list("statusFoldSkips", "aggregateStatus: every `continue`/`break`/`return`/`goto` of the function as (conditions around it, statement).",
+		guardStacks(fset, aggU.Body, func(st ast.Stmt) (string, bool) {
+			switch x := st.(type) {
+			case *ast.BranchStmt:
+				return str(x), true
+			case *ast.ReturnStmt:
+				return "return", true
+			}
+			return "", false
+		}))
+	list("statusFoldCombines", "aggregateStatus: every assignment to the result as (conditions around it, statement).",
+		guardStacks(fset, aggU.Body, func(st ast.Stmt) (string, bool) {
+			if as, ok := st.(*ast.AssignStmt); ok && len(as.Lhs) == 1 && str(as.Lhs[0]) == "status" {
+				return str(as), true
+			}
+			return "", false
+		}))
+	var fw2 [][2]string
+	for _, spec := range [][3]string{
+		{"core/workflow/taskrole.go", "*taskRole", "updateState"}, {"core/workflow/taskrole.go", "*taskRole", "updateStatus"},
+		{"core/workflow/callrole.go", "*callRole", "updateState"}, {"core/workflow/callrole.go", "*callRole", "updateStatus"},
+	} {
+		fd, err := funcOf(spec[0], spec[1], spec[2])
+		if err != nil {
+			return "", err
+		}
+		for _, r := range guardStacks(fset, fd.Body, func(st ast.Stmt) (string, bool) {
+			if es, ok := st.(*ast.ExprStmt); ok {
+				if s := str(es.X); strings.HasPrefix(s, "t.parent.") {
+					return s, true
+				}
+			}
+			return "", false
+		}) {
+			fw2 = append(fw2, [2]string{spec[1] + "." + spec[2] + ": " + r[0], r[1]})
+		}
+	}
+	list("leafForwards", "leaf roles: every call on t.parent in updateState/updateStatus as (receiver.function: conditions around it, call).", fw2)
+	b.WriteString("end Gen\n")
+	return b.String(), nil
 }
